@@ -49,6 +49,10 @@ def bundle(H, g, name):
     b["comps"] = get("connected_components", lambda: [sorted(iN(n) for n in c) for c in xgi.connected_components(H)], [])
     b["max"] = get("maximal", lambda: sorted(iE(e) for e in H.edges.maximal()), [])
     b["dups"] = get("duplicates", lambda: sorted(iE(e) for e in H.edges.duplicates()), [])
+    import math as _m
+
+    b["dist"] = get("shortest_path_length", lambda: sorted(
+        [iN(s_), sorted([iN(t_), (-1 if _m.isinf(d) else int(d))] for t_, d in dd.items())] for s_, dd in xgi.shortest_path_length(H)), [])
 
     def degvec():
         K, rd = xgi.degree_matrix(H, index=True)
@@ -82,12 +86,26 @@ def _worker(args):
         rng = random.Random(seed_ * 472882027 + base + k)
         real, errs = [], []
         variants = obscore.edge_id_variants(j, rng)
+        NEW = 60  # abstract id of one more edge, added with an automatic id after construction
+        extra = sorted(j["nodes"][:2])
         for ri in range(6):
             g = Gamma(*FAMS[ri % len(FAMS)])
             vname, emap = variants[ri % len(variants)]
-            # the map is expressed in abstract ids, so the projection undoes it with the inverse map
-            H = obscore.realise(j, g, rng, shuffle=ri > 0, edge_id_map=emap)
+            if ri % 2 == 1:
+                # built in one bulk call from a dict whose keys arrive in shuffled order
+                H = xgi.Hypergraph()
+                ns = list(j["nodes"])
+                rng.shuffle(ns)
+                H.add_nodes_from([g.node(n) for n in ns])
+                items = list(zip(j["edges"], j["e2n"]))
+                rng.shuffle(items)
+                H.add_edges_from({g.edge(emap.get(e, e)): [g.node(n) for n in m] for e, m in items})
+                vname += "/bulk"
+            else:
+                H = obscore.realise(j, g, rng, shuffle=ri > 0, edge_id_map=emap)
+            H.add_edge([g.node(n) for n in extra])
             inv = {v: k2 for k2, v in emap.items()}
+            known = set(emap.values()) if emap else set(j["edges"])
 
             class G2:
                 name = f"{g.name}/{vname}"
@@ -95,13 +113,23 @@ def _worker(args):
                 def inv_node(self, x, g=g):
                     return g.inv_node(x)
 
-                def inv_edge(self, x, g=g, inv=inv):
-                    a = g.inv_edge(x)
-                    return inv.get(a, a)
+                def inv_edge(self, x, g=g, inv=inv, known=known):
+                    try:
+                        a = g.inv_edge(x)
+                    except Exception:  # noqa: BLE001
+                        return NEW
+                    if a in known:
+                        return inv.get(a, a)
+                    return NEW
             b, e = bundle(H, G2(), f"{g.name}/{vname}")
             real.append(b)
             errs += e
-        st = dict(j)
+        st = json.loads(json.dumps(j))
+        st["edges"].append(NEW)
+        st["e2n"].append(extra)
+        st["eak"].append(NEW)
+        st["eattr"].append([])
+        st["n2e"] = [es + ([NEW] if n in extra else []) for n, es in zip(st["nodes"], st["n2e"])]
         out.append({"rid": f"s{base + k}", "what": f"shape {base + k} x 6 realisations", "st": st, "real": real,
                     "anom": sorted(set(errs))})
     return out
